@@ -23,6 +23,12 @@ CHECKS = {
  "C07": dict(cat="exploration", tech="hostile-request fuzzing of Handler.ServeHTTP with a recording ResponseWriter and the reference decoder as oracle",
    text="Held on every executed crafted request: grammar-based hostile requests (unsupported encodings, malformed timeouts, reserved flags, server-only frames, lying lengths, truncated / undecodable / oversize / bomb payloads), mutations of recorded valid requests (bit flips, truncation, dropped headers, method/version/content-type changes) and random bytes, x 3 protocols x 2 codecs x 4 kinds x 2 handler configurations. Oracle: no panic, returns, response well-formed for the selected protocol per the reference decoder (or a bare 405/415/505), user code at most once, messages seen by user code are a prefix of the reference-decoded valid prefix, unknown compression => unimplemented naming the algorithms without running user code, malformed timeout => invalid_argument without running user code, malformed framing / undecodable / oversize never answered with success.",
    note="Handlers use WithReadMaxBytes(1 MiB); a zero-length JSON envelope is read as the zero message (the library's documented reading).", ref="DESIGN.md 4 C07"),
+ "C08": dict(cat="exploration", tech="runtime monitor: negotiation model over recorded headers/flags/payloads + instrumented (de)compressors + corrupt/valid call histories on shared pools",
+   text="Held on every executed negotiation and history: ordered subsets of a 4-algorithm universe registered on each side (gzip re-registered at different positions), send-compression choice, compress-min on each side, message sizes min-1/min/min+1, 3 protocols x 2 codecs x 4 kinds through an in-memory loopback whose headers, flags and payload bytes are checked against a negotiation model (advertised list == registrations last-first; unsupported request encoding => unimplemented listing the handler's algorithms without user code; response algorithm supported by the handler and used-or-advertised by the client, equal to the client's first mutual preference; below-min messages uncompressed; every compressed payload decompresses with the reference implementation to the message passed in). Isolation: histories of corrupt and valid compressed calls over real sockets on one handler set and one client set - sequential with GOMAXPROCS=1 and concurrent bursts with GC off - every corrupt call yields a coded error and every valid call succeeds with its own payload.",
+   note="Universe is gzip plus three trivially invertible test algorithms with magic bytes; their Compressor/Decompressor objects assert Reset..Close discipline and single ownership.", ref="DESIGN.md 4 C08"),
+ "C09": dict(cat="exploration", tech="runtime monitor: delivered-iff-within-limit oracle over exact encoded sizes + TotalAlloc measurement of single hostile messages",
+   text="Held on every executed case: N in {2,10,100,1000,64Ki,128Ki} x exact encoded sizes N-1/N/N+1/10N x identity/gzip (wire and decompressed size classes) x position in a 3-message stream x 3 protocols x 4 kinds x handler-side and client-side limits: a message is delivered iff its encoded size (wire and decompressed) is <= N, the failing call carries invalid_argument (resource_exhausted accepted), earlier messages are delivered and later ones are not. Hostile single messages (lying prefixes, 32 MiB envelopes with reserved flags, 64/256 MiB gzip bombs) are processed alone on one goroutine and runtime.MemStats.TotalAlloc must stay under 16N + 3 MiB.",
+   note="raw <= N < compressed wire size is either-outcome; a terminator frame larger than a tiny N is not judged (not a message); allocation bound has 3 MiB slack for gzip reader state.", ref="DESIGN.md 4 C09"),
 }
 
 REASON_PENDING="check under construction (framework being built); will be claimed once its monitor exists"
